@@ -26,6 +26,10 @@ def run(rep):
     cands = [c for x in results for c in x["cands"]]
     if cands:
         ok = pp.confirm_kadj(rep, results, None)
+        if any(x["cands"] for x in results if x["name"].startswith("get_imsaak")):
+            ok = pp.imsaak_grid(rep) or ok
+        from . import c11
+        ok = c11.confirm_rounding(rep, results) or ok
         if not ok:
             kres = [x for x in results if "non-interference" in x["name"]]
             kp.confirm(rep, kres, {"twilight", "asr"}, 62, key_prefix="")
